@@ -184,7 +184,9 @@ Fixpoint rstrip_sp (l : list N) : list N :=
               end
   end.
 
-Definition lower_ascii (c : N) : N := if (65 <=? c) && (c <=? 90) then c + 32 else c.
+(* str.lower() on the iso-8859-1 decoding, re-encoded: A-Z and the Latin-1 capitals 0xC0-0xDE except the
+   multiplication sign 0xD7; the writer (_get_names) and the reader (_split_entries) use the same map *)
+Definition lower_ascii (c : N) : N := if ((65 <=? c) && (c <=? 90)) || ((192 <=? c) && (c <=? 222) && negb (c =? 215)) then c + 32 else c.
 
 (* UTF-16LE code units -> code points (surrogate pairs joined; lone surrogates kept) *)
 Fixpoint units (b : list N) : list N :=
